@@ -595,7 +595,22 @@ def check_sat(constraints, timeout_ms=60000, tactic=None):
     if r == z3.unsat:
         return Verdict('unsat', None, dt)
     if r == z3.sat:
-        return Verdict('sat', s.model(), dt)
+        m = s.model()
+        # Prefer a counterexample in which no variable is exactly 0 (variables the failing claim does not constrain
+        # default to 0 in z3 models, which tends to hide the effect when the counterexample is replayed on floats).
+        try:
+            fv = [v for v in free_vars(list(constraints)).values() if v.sort() == _RS]
+            if fv and len(fv) <= 400:
+                s.push()
+                s.set('timeout', 3000)
+                for v in fv:
+                    s.add(v != 0)
+                if s.check() == z3.sat:
+                    m = s.model()
+                s.pop()
+        except z3.Z3Exception:
+            pass
+        return Verdict('sat', m, dt)
     return Verdict('unknown', None, dt, s.reason_unknown())
 
 
